@@ -80,6 +80,41 @@ Theorem C08_constraint_keys_distinct_observable : forall g,
 Proof. exact constraint_keys_distinct_b_spec. Qed.
 Print Assumptions C08_constraint_keys_distinct_observable.
 
+(* The source-level form of the hypothesis.  [subkeys_distinct]: no two `<--`
+   statements of the cfg agree in (location, base name of the assigned
+   variable, component path) — exactly what a statement keeps of its source
+   text; SSA versions, generated suffixes, index expressions and degree claims
+   play no role.  It implies [keys_distinct]; the check compares these
+   sub-keys, statement for statement, with the generator's own record of the
+   `<--` it wrote (statements_match in lib/props/C08.py). *)
+Theorem C08_subkeys_distinct_suffice : forall g, subkeys_distinct g -> keys_distinct g.
+Proof. exact subkeys_distinct_suffice. Qed.
+Print Assumptions C08_subkeys_distinct_suffice.
+
+Theorem C08_subkeys_distinct_observable : forall g, subkeys_distinct_b g = true <-> subkeys_distinct g.
+Proof. exact subkeys_distinct_b_spec. Qed.
+Print Assumptions C08_subkeys_distinct_observable.
+
+Theorem C08_sigassign_bijection_source_keys : forall g,
+  c_kind g = KTemplate -> subkeys_distinct g -> constraint_keys_distinct g ->
+  Forall2 (finding_for g) (assign_stmts g) (find_signal_assignments g).
+Proof. exact sigassign_bijection_source_keys. Qed.
+Print Assumptions C08_sigassign_bijection_source_keys.
+
+(* DESIGN's `desugared_keys_distinct` (keys_distinct from distinct parser
+   ranges alone) is FALSE: [kf_cfg] is the SSA cfg the real front end builds
+   for `template D() { signal input x; signal (b, b) <-- (x % 2, x % 2); }`
+   (known finding C08-decl-tuple-duplicate-name): two `<--` statements, equal
+   keys, one finding.  Replayed on the real code on every run
+   (corpus/C08/K-decl-tuple-dup-name.json). *)
+Theorem C08_keys_distinct_fails_on_lifted_source :
+  c_kind kf_cfg = KTemplate /\ ~ keys_distinct kf_cfg /\ ~ subkeys_distinct kf_cfg /\
+  length (assign_stmts kf_cfg) = 2 /\
+  find_signal_assignments kf_cfg =
+    [ {| r_code := CS0005; r_primary := [(39, 71, 0)%N]; r_secondary := [] |} ].
+Proof. exact keys_distinct_fails_on_lifted_source. Qed.
+Print Assumptions C08_keys_distinct_fails_on_lifted_source.
+
 (* keys_distinct cannot be dropped: two `<--` statements with the same
    (meta, signal, access, degree) share one finding *)
 Theorem C08_keys_distinct_needed :
@@ -107,6 +142,9 @@ Example C08_example_hypotheses : keys_distinct ex_cfg /\ constraint_keys_distinc
 Proof.
   split; [apply keys_distinct_b_spec | apply constraint_keys_distinct_b_spec]; vm_compute; reflexivity.
 Qed.
+
+Example C08_example_source_keys : subkeys_distinct ex_cfg.
+Proof. apply subkeys_distinct_b_spec; vm_compute; reflexivity. Qed.
 
 Example C08_example_reports :
   find_signal_assignments ex_cfg =
